@@ -30,7 +30,7 @@ PROFILE = S.GENERAL.but(p_forever=38, p_never=50, p_sched_forever=25, p_nested=2
 
 
 def budget(tier):
-    return dict(examples=6000 if tier == 'quick' else 300000)
+    return dict(examples=6000 if tier == 'quick' else 150000)
 
 
 def strategy(tier):
